@@ -525,9 +525,11 @@ func c19Class(r interface{}) string {
 		return "nosuitable"
 	case strings.Contains(msg, "nil pointer dereference"):
 		return "nilderef"
-	case strings.Contains(msg, "returns length not match") || strings.Contains(msg, "Return Value ("):
+	case strings.Contains(msg, "returns lenth not match") || strings.Contains(msg, "args length not match"):
+		return "lenerr" // CreateWhen's checkParams (both constructors build the same error type)
+	case strings.Contains(msg, "Return Value ("):
 		return "reterr"
-	case strings.Contains(msg, "args length not match") || strings.Contains(msg, "Call When("):
+	case strings.Contains(msg, "Call When("):
 		return "whenerr"
 	case strings.Contains(msg, "method not implements"):
 		return "notimpl"
@@ -624,7 +626,8 @@ func c19RunScenario(toks []string, logf *os.File) string {
 	}
 	c := &c19Scn{tgt: toks[2], mock: Create(), recv: &c19S{}, ivar: &c19Impl{}, shape: shape}
 	c19Events, c19Wraps = nil, nil
-	logStart, _ := logf.Seek(0, 1)
+	logf.Seek(0, 0)
+	logStart := int64(0)
 	var T []string
 	for _, op := range c19SplitOps(toks[3:]) {
 		if len(op) == 0 {
@@ -687,6 +690,8 @@ func c19RunScenario(toks []string, logf *os.File) string {
 	buf := make([]byte, end-logStart)
 	logf.ReadAt(buf, logStart)
 	L := bytes.Count(buf, []byte("] called, args ["))
+	logf.Truncate(0) // the log text is never compared; keep the file small
+	logf.Seek(0, 0)
 	w := string(c19Wraps)
 	if w == "" {
 		w = "-"
@@ -773,6 +778,17 @@ func c19RunSprintV(toks []string) (res string) {
 	return "sv=" + strings.ReplaceAll(c19Hex(arg.SprintV(vs)), " ", "_")
 }
 
+func c19HasCycle(toks []string) bool {
+	for _, t := range toks {
+		for _, v := range strings.Split(t, ",") {
+			if len(v) == 3 && v[0] == 'z' && v[1] == '2' {
+				return true
+			}
+		}
+	}
+	return false
+}
+
 func TestVerifC19(t *testing.T) {
 	cfg := os.Getenv("VERIF_C19_CFG")
 	if ms := os.Getenv("VERIF_C19_MAXSTACK"); ms != "" {
@@ -815,6 +831,9 @@ func TestVerifC19(t *testing.T) {
 		case "c19.s":
 			if len(op.Toks) < 2 || op.Toks[1] != cfg {
 				continue
+			}
+			if os.Getenv("VERIF_C19_ISOLATED") == "" && c19HasCycle(op.Toks) {
+				continue // slice/map cycles (F13) only run in a child process of their own
 			}
 			if dirty { // a previous scenario toggled the switches: put the process configuration back
 				switch cfg {
